@@ -9,9 +9,10 @@ A_COMMON = [
     "A3: try_lock never fails spuriously",
     "A5: bounded programs (threads, operations per thread) and deviation bounds as reported in coverage",
     "A6: g++ 12.2 -O1 with -fsanitize=thread instrumentation routed to our own runtime",
-    "A7: the library keeps no mutable static / thread_local state across uses (true of the tree; the trip lines are "
+    "A7: the library keeps no mutable process-wide static state across uses (true of the tree; the trip lines are "
     "reset by the C19 harness): many executions share one process, and state that survives an execution makes the "
-    "check stop with a machinery error (exit 2) instead of a verdict",
+    "check stop with a machinery error (exit 2) instead of a verdict. thread_local state is modelled: one copy per "
+    "client thread, fresh in every execution, destroyed at thread exit",
 ]
 A_MM = "A4: operational C++11 memory-model fragment (no load buffering / out-of-thin-air executions)"
 
